@@ -18,6 +18,17 @@ class ToolError(Exception):
     pass
 
 
+class CodeCrash(Exception):
+    """The driver process was killed by SIGSEGV/SIGABRT/SIGBUS/SIGILL/SIGFPE while running the code under test.
+    That is data about the code under test (memory unsafety, double free, abort), not a tool error."""
+    def __init__(self, bin_name, args, rc, out, env):
+        Exception.__init__(self, "driver %s killed by signal %d" % (bin_name, -rc))
+        self.bin_name, self.args_list, self.rc, self.out, self.env = bin_name, [str(a) for a in args], rc, out, dict(env or {})
+
+
+CRASH_SIGNALS = (-11, -6, -7, -4, -8)
+
+
 def sh(cmd, timeout=600, env=None, cwd=None):
     e = dict(os.environ)
     if env:
@@ -174,6 +185,8 @@ def cargo_build(bin_name, timeout=1200):
 def harness(bin_name, args, timeout=600, env=None):
     exe = os.path.join(HARNESS, "target", "debug", bin_name)
     rc, out, wall = sh([exe] + [str(a) for a in args], timeout=timeout, env=env)
+    if rc in CRASH_SIGNALS:
+        raise CodeCrash(bin_name, args, rc, out, env)
     summ = None
     for line in reversed(out.strip().splitlines()):
         try:
@@ -182,6 +195,25 @@ def harness(bin_name, args, timeout=600, env=None):
         except Exception:
             continue
     return rc, out, summ
+
+
+def run_unbounded(chk, name):
+    """Unbounded safety argument (Apalache inductive invariant + TLAPS proof, lib/apalache.py, notes/unbounded.md) for the
+    module behind a property. Recorded in the evidence as data: it never decides the verdict of the check (a proof that
+    does not go through says nothing about the code), and any failure of the tools is swallowed."""
+    try:
+        import importlib.util
+        spec = importlib.util.spec_from_file_location("unb_" + name, os.path.join(ROOT, "checks", "unbounded_%s.py" % name))
+        mod = importlib.util.module_from_spec(spec)
+        spec.loader.exec_module(mod)
+        r = mod.unbounded(chk)
+        slim = {k: r.get(k) for k in ("module", "tool", "constants", "proved", "tlaps", "proved_unbounded", "safety", "safety_vs_tlc")}
+        slim["obligations"] = [{k: o.get(k) for k in ("name", "outcome", "wall_s")} for o in r.get("obligations", [])]
+        chk.notes["unbounded_" + name] = slim
+        chk.log("unbounded %s: proved within bound=%s, proved unbounded (TLAPS)=%s" % (name, r.get("proved"), r.get("proved_unbounded")))
+    except Exception as e:       # noqa: deliberately broad, see docstring
+        chk.notes["unbounded_" + name] = {"error": repr(e)[:500]}
+        chk.log("unbounded %s: not run (%r)" % (name, e))
 
 
 # ----------------------------------------------------------------------------- findings / evidence
